@@ -14,7 +14,7 @@ from ..common import *
 CONC = {"a": "a", "n": "n", "e": "é", "1": "1", "s": " ", "l": "\n", "q": '"', "b": "\\", "p": "+", "o": "(", "c": ")",
         "h": "#", "t": "\t", "u": "‮", "x": "\U0001F600", "k": "{", "K": "}", "g": "'", "m": "!", "d": ".", "i": "-",
         "r": "*", "w": ":", "y": "=", "z": "_", "v": ",", "f": "[", "F": "]"}
-KIND = {"Symbol": "id", "NatLit": "num", "StrLit": "str", "Plus": "p", "PrePlus": "p", "LParen": "o", "RParen": "c"}
+KIND = {"Symbol": "id", "NatLit": "num", "StrLit": "str", "StrInterpLeft": "str", "StrInterpMid": "str", "StrInterpRight": "str", "Plus": "p", "PrePlus": "p", "LParen": "o", "RParen": "c"}
 LAYOUT = {"Newline", "Indent", "Dedent", "EOF"}
 VERBATIM = {"Symbol", "NatLit", "IntLit", "Plus", "PrePlus", "Minus", "PreMinus", "Star", "LParen", "RParen", "LSqBr", "RSqBr",
             "LBrace", "RBrace", "Colon", "Assign", "Comma", "Dot", "DblColon", "Pow", "Walrus", "DblEq"}
@@ -109,6 +109,16 @@ def run(ctx):
     refs = r.tagged("X")
     if len(refs) < 50000:
         raise ToolError("too few inputs")
+    # layout alphabet {a, space, LF} to length 10, and inputs continuing an interpolated string
+    for extra, tag in (("MC_Lexer_layout.cfg", "layout"), ("MC_Lexer_interp.cfg", "interp")):
+        rx = tlc("lex/MC_Lexer.tla", cfg=extra, workers=8, coverage=False, heap="8g", tag="c08" + tag, timeout=1200)
+        if not rx.ok:
+            raise ToolError(f"LexerRef.tla violates its own invariant ({extra})")
+        ctx.tlc_stats(rx, f"LexerRef {extra}")
+        more = rx.tagged("X")
+        if len(more) < 20000:
+            raise ToolError(f"too few inputs from {extra}")
+        refs += more
     recs = [{"id": i, "src": "".join(CONC[c] for c in x["input"])} for i, x in enumerate(refs)]
     parts = list(chunks(recs, (len(recs) + 11) // 12))
     from concurrent.futures import ThreadPoolExecutor
